@@ -215,6 +215,14 @@ func run(c *harness.Ctx, i int) {
 		}
 	case "index":
 		ms := dsu.NewMemStore("s")
+		if rng.Intn(2) == 0 {
+			// a slow store (S3, SFTP): the workers storing chunks lag behind the chunker reading on
+			ms.Gate = func(op string, id desync.ChunkID, n int64) {
+				if op == "store" {
+					time.Sleep(time.Duration(200+n%7*300) * time.Microsecond)
+				}
+			}
+		}
 		sz := dsu.Sizes{Min: 1024, Avg: 4096, Max: 16384}
 		ch, err := desync.NewChunker(bytes.NewReader(cat.Bytes()), sz.Min, sz.Avg, sz.Max)
 		dsu.Must(err)
